@@ -2,10 +2,10 @@
    Evaluated either by vm_compute inside coqc or by the OCaml program extracted from this file. *)
 From Coq Require Import ZArith List Bool String Ascii.
 From Coq.Strings Require Import Byte.
-From CP Require Import Core.Bytes Core.Result Core.Show Prim.Int Prim.Mpint Prim.Timestamp Base.Enum Base.Array.
+From CP Require Import Core.Bytes Core.Result Core.Show Prim.Int Prim.Mpint Prim.Timestamp Base.Enum Base.Array Frame.LVFrame Frame.Units Frame.Entry Reader.Reader.
 From CPGen Require Import Tables.
 Import ListNotations.
-Open Scope string_scope.
+Local Open Scope string_scope.
 Open Scope Z_scope.
 
 Definition order_of (s : string) : order :=
@@ -110,8 +110,60 @@ Definition array_bounds (name : string) : Z * Z :=
   | None => (0, -1)
   end.
 
+(* ---- framing units: every unit is presented as a parser to (header description, payload) ---- *)
+Definition frame := (string * bytes)%type.
+Definition show_frame (f : frame) : string := fst f ++ ";" ++ hex_of_bytes (snd f).
+Definition lift {H} (sh : H -> string) (p : bytes -> result ((H * bytes) * Z)) (buf : bytes) : result (frame * Z) :=
+  let* (x, n) := p buf in Ok ((sh (fst x), snd x), n).
+Definition show_zz (x : Z * Z) : string := string_of_Z (fst x) ++ "," ++ string_of_Z (snd x).
+Definition show_unit (_ : unit) : string := "".
+Definition unit_parser (u : string) : option (bytes -> result (frame * Z)) :=
+  if String.eqb u "tlsrecord" then Some (lift show_zz parse_tls_record)
+  else if String.eqb u "hskex" then Some (lift show_unit (parse_handshake 12))
+  else if String.eqb u "mysql" then Some (lift string_of_Z parse_mysql_record)
+  else if String.eqb u "tpkt" then Some (lift string_of_Z parse_tpkt)
+  else if String.eqb u "ovpn" then Some (lift show_unit parse_ovpn_tcp)
+  else if String.eqb u "pgssl" then Some (lift show_unit parse_pg_sslrequest)
+  else if String.eqb u "pgsync" then Some (lift show_unit parse_pg_sync)
+  else None.
+Definition zz_of_string (s : string) : Z * Z :=
+  match split_on "," s "" with [a; b] => (z_of_string a, z_of_string b) | _ => (0, 0) end.
+Definition unit_composer (u : string) (hd : string) (pl : bytes) : option (result bytes) :=
+  if String.eqb u "tlsrecord" then Some (compose_tls_record (zz_of_string hd, pl))
+  else if String.eqb u "hskex" then Some (compose_handshake 12 (tt, pl))
+  else if String.eqb u "mysql" then Some (compose_mysql_record (z_of_string hd, pl))
+  else if String.eqb u "tpkt" then Some (compose_tpkt (z_of_string hd, pl))
+  else if String.eqb u "ovpn" then Some (compose_ovpn_tcp (tt, pl))
+  else if String.eqb u "pgssl" then Some (compose_pg_sslrequest (tt, pl))
+  else if String.eqb u "pgsync" then Some (compose_pg_sync (tt, pl))
+  else None.
+Definition show_frame_n (x : frame * Z) : string := show_frame (fst x) ++ " n=" ++ string_of_Z (snd x).
+Definition show_frame_rest (x : frame * bytes) : string := show_frame (fst x) ++ " rest=" ++ hex_of_bytes (snd x).
+Definition show_rstate (st : rstate frame) : string :=
+  match status st with
+  | Running => "RUN"
+  | Failed e => "FAIL " ++ show_err e
+  end ++ " out=" ++ show_list show_frame (out st) ++ " buf=" ++ hex_of_bytes (rbuf st) ++ " need=" ++ string_of_Z (need st).
+(* the reader fed with the given chunks; the trace lists the wait target after every chunk *)
+Fixpoint reader_trace (p : bytes -> result (frame * Z)) (st : rstate frame) (chunks : list bytes) (acc : list string) : string :=
+  match chunks with
+  | [] => String.concat "," (rev acc) ++ " " ++ show_rstate st
+  | c :: r => let st' := feed frame p st c in reader_trace p st' r (string_of_Z (need st') :: acc)
+  end.
+
 Definition run_words (ws : list string) : string :=
   match ws with
+  | ["pframe"; u; h] => match unit_parser u with
+                        | Some p => show_result show_frame_n (p (bytes_of_hex h)) | None => "BADCMD" end
+  | ["xframe"; u; h] => match unit_parser u with
+                        | Some p => show_result show_frame (parse_exact_size frame p (bytes_of_hex h)) | None => "BADCMD" end
+  | ["mframe"; u; h] => match unit_parser u with
+                        | Some p => show_result show_frame_rest (parse_mutable frame p (bytes_of_hex h)) | None => "BADCMD" end
+  | ["cframe"; u; hd; h] => match unit_composer u hd (bytes_of_hex h) with
+                            | Some r => show_result hex_of_bytes r | None => "BADCMD" end
+  | ["reader"; u; chunks] => match unit_parser u with
+                             | Some p => reader_trace p (rinit frame) (map bytes_of_hex (if String.eqb chunks "-" then [] else split_on "," chunks "")) []
+                             | None => "BADCMD" end
   | ["vec"; cls; init; ops] =>
       let (mn, mx) := array_bounds cls in
       match mk_vec vitem_sz mn mx (vitems_of_string init) with
